@@ -617,6 +617,9 @@ def rule_gate(ctx):
         ctx.check(not calls, "C09.GATE", f"{r.short} !-> reset_*", "no reset_* call", f"{r.short} calls {calls and calls[0].func.attr}: a raw store becomes reachable from the property's operations", fi=r, text=f"reset:{r.name}")
 
 
+# a client write addressed to one property reaches that property's switches (and no other vector's)
+IMPORTS = [('C06', 'C06.KEY')]
+
 RULES = [
     ("C09.STEP", rule_step, "induction step: every single write leaves the vector in the state the rule table prescribes; invalid values raise; publication after stores"),
     ("C09.SIZES", rule_sizes, "the same step table for vectors of 1, 2 and 4 switches (degenerate sizes included)"),
